@@ -193,15 +193,19 @@ CHECKS['C10'] = dict(
 CHECKS['C04'] = dict(
     text='Theorems (unbounded: any depth, length and payloads): C04_parse_encode (parse (enc forest) = forest for every well-formed box '
          'forest over the container table with 32-bit sizes), C04_encode_parse (every byte string the parser accepts re-encodes to '
-         'exactly those bytes), C04_be32 / C04_be64 (integer fields). Tied to /repo by differential runs of Mp4Atom.load/encode (eager '
-         'and lazy) against the model on fixture boxes and generated forests (tree shape and bytes). The remaining clauses are decided '
-         'by the oracle on the real library: byte-exact round trip of every fixture box in both modes, identical field values eager '
-         'vs lazy, JSON form and back, sizes nest after edit scripts (independent walker).',
-    note=TB + 'PARTIAL: the typed field codecs of mp4.py (tfhd, trun, senc, avcC, esds, sample entries ...) are not modelled in Coq - '
-         'every non-container box is an opaque payload, exactly the quantity the framing theorems are about; their round trip is '
-         'decided on the fixture boxes by the oracle only. 64-bit / to-end size forms are outside the model (known finding size-forms).',
-    technique='Coq proof (induction over the parser fuel with a weight measure; list slicing arithmetic) + differential correspondence + '
-              'oracle with an independent box walker',
+         'exactly those bytes), C04_be32 / C04_be64, and for the typed field codecs C04_typed_decode_encode / C04_typed_encode_decode: for '
+         'EVERY field layout (the layouts of mvhd, tkhd, mdhd, mehd, tfdt, mfhd, trex, tfhd, trun, saio, tenc, pssh for every version, '
+         'flags word and count are instances of Model/FieldModel.layout_of) decoding an encoding returns the values and whatever the '
+         'decoder accepts re-encodes to exactly the bytes consumed. Tied to /repo by differential runs of Mp4Atom.load/encode (eager and '
+         'lazy) against the framing model on fixture boxes and generated forests, and of the parsed fields of every typed box (fixtures '
+         '+ boxes written from the specification by an independent encoder: both versions, all flag combinations, ids with leading '
+         'zeros) against the layout model. Oracle on the real library: byte-exact round trip in both modes, identical field values '
+         'eager vs lazy, JSON form and back, sizes nest - in memory and on the wire - after edit scripts (independent walker).',
+    note=TB + 'PARTIAL: box classes outside the layout list (sample entries, avcC / hvcC, esds descriptors, senc, sidx, emsg strings) are '
+         'decided by the oracle on fixture and synthetic boxes only; timestamps are compared as raw integers by the model and as '
+         'datetimes by the library; 64-bit / to-end size forms are outside the model (known finding size-forms).',
+    technique='Coq proof (induction over the parser fuel with a weight measure; big-endian field codec lemmas, induction over layouts) + '
+              'differential correspondence + specification-encoder oracle',
     design='C04-C03-C10')
 
 CHECKS['C03'] = dict(
